@@ -189,6 +189,15 @@ func stampVal(base uint8, k int, j int) uint8 {
 	return uint8(0x10*(k+1)) + uint8(3*j) + base
 }
 
+// stampAt is the stamp for location a: IF keeps five bits, so its stamps differ in those (and read
+// back with the upper three set).
+func stampAt(a uint16, base uint8, k int, j int) uint8 {
+	if a == 0xff0f {
+		return 0xe0 | (uint8(k*7+5)+base)&0x1f
+	}
+	return stampVal(base, k, j)
+}
+
 func (c03) Execute(sc *engine.Scenario) *engine.Result {
 	res := &engine.Result{}
 	l := newLockstep(sc, res)
@@ -207,7 +216,7 @@ func (c03) Execute(sc *engine.Scenario) *engine.Result {
 
 	stamp := func(k int) {
 		for j, a := range watch {
-			l.pokeBoth(a, stampVal(sbase, k, j))
+			l.pokeBoth(a, stampAt(a, sbase, k, j))
 		}
 	}
 	peek := func(a uint16) uint8 {
@@ -337,11 +346,14 @@ func c03Judge(res *engine.Result, l *lockstep, sbase uint8, watch []uint16, doc 
 		if !a.Write {
 			continue
 		}
+		if a.Addr == 0xff0f {
+			continue // an interrupt line rising changes IF too: the bus tap above has judged the write's cycle
+		}
 		res.Probe("stamped_write")
 		j := idx[a.Addr]
 		realCycle := 0
 		for k := 1; k <= len(timeline); k++ {
-			if timeline[k-1][j] != stampVal(sbase, k-1, j) {
+			if timeline[k-1][j] != stampAt(a.Addr, sbase, k-1, j) {
 				realCycle = k
 				break
 			}
@@ -355,7 +367,7 @@ func c03Judge(res *engine.Result, l *lockstep, sbase uint8, watch []uint16, doc 
 	// ---- reads: only if the registers disagree, and only if moving a read explains it
 	hasRegs := false
 	for _, mm := range mism {
-		if mm.kind == "regs" || mm.kind == "mem" {
+		if mm.kind == "regs" || mm.kind == "mem" || mm.kind == "if" || mm.kind == "buswrite" {
 			hasRegs = true
 		}
 	}
@@ -382,6 +394,12 @@ func c03Judge(res *engine.Result, l *lockstep, sbase uint8, watch []uint16, doc 
 			return false
 		}
 		for _, a := range c.Acc {
+			if a.Write && a.Addr == 0xff0f {
+				if peekReal(a.Addr)&0x1f != a.Val&0x1f {
+					return false
+				}
+				continue
+			}
 			if a.Write && peekReal(a.Addr) != a.Val {
 				return false
 			}
@@ -424,7 +442,7 @@ func c03Judge(res *engine.Result, l *lockstep, sbase uint8, watch []uint16, doc 
 		ri := readIdx[pos]
 		j := idx[doc[ri].Addr]
 		for c := 1; c <= maxC; c++ {
-			ov[ri] = stampVal(sbase, c-1, j)
+			ov[ri] = stampAt(doc[ri].Addr, sbase, c-1, j)
 			if try(pos+1, ov, append(cyc, c)) {
 				return true
 			}
